@@ -9,6 +9,7 @@ import (
 	"errors"
 	"fmt"
 	"net"
+	"sync/atomic"
 
 	"github.com/cnotch/ipchub/config"
 	"github.com/cnotch/ipchub/media"
@@ -65,13 +66,13 @@ func (s *tcpPushStream) WritePacket(p *RTPPack) error {
 
 type tcpConsumer struct {
 	*Session
-	closed bool
+	closed int32 // 原子访问：Close 可能同时来自会话 routine 和消费 routine
 	source *media.Stream
 	cid    media.CID
 }
 
 func (c *tcpConsumer) Consume(p Pack) {
-	if c.closed {
+	if atomic.LoadInt32(&c.closed) != 0 {
 		return
 	}
 
@@ -102,18 +103,16 @@ func (c *tcpConsumer) Consume(p Pack) {
 }
 
 func (c *tcpConsumer) Close() error {
-	if c.closed {
+	if !atomic.CompareAndSwapInt32(&c.closed, 0, 1) {
 		return nil
 	}
-	c.closed = true
 	c.source.StopConsume(c.cid)
-	c.source = nil
 	return nil
 }
 
 type udpConsumer struct {
 	*Session
-	closed   bool
+	closed   int32 // 原子访问
 	source   *media.Stream
 	cid      media.CID
 	udpConn  *net.UDPConn // 用于Player的UDP单播
@@ -121,7 +120,7 @@ type udpConsumer struct {
 }
 
 func (c *udpConsumer) Consume(p Pack) {
-	if c.closed {
+	if atomic.LoadInt32(&c.closed) != 0 {
 		return
 	}
 
@@ -137,14 +136,12 @@ func (c *udpConsumer) Consume(p Pack) {
 }
 
 func (c *udpConsumer) Close() error {
-	if c.closed {
+	if !atomic.CompareAndSwapInt32(&c.closed, 0, 1) {
 		return nil
 	}
-	c.closed = true
 
 	c.source.StopConsume(c.cid)
 	c.udpConn.Close()
-	c.source = nil
 	return nil
 }
 
@@ -169,20 +166,17 @@ func (c *udpConsumer) prepareUDP(destIP string, destPorts [rtpChannelCount]int) 
 
 type multicastConsumer struct {
 	*Session
-	closed bool
+	closed int32 // 原子访问
 	source *media.Stream
 }
 
 func (c *multicastConsumer) Consume(p Pack) {}
 func (c *multicastConsumer) Close() error {
-	if c.closed {
+	if !atomic.CompareAndSwapInt32(&c.closed, 0, 1) {
 		return nil
 	}
-	c.closed = true
 
 	c.source.Multicastable().ReleaseMember(c.Session)
-	c.source = nil
-	c.Session = nil
 	return nil
 }
 
